@@ -4,7 +4,7 @@ TIER=${1:-quick}; shift
 IDS=${@:-$(python3 -c "import json;print(' '.join(c['property_id'] for c in json.load(open('/verif/MANIFEST.json'))['checks']))")}
 for id in $IDS; do
   s=$(date +%s)
-  out=$(./check $id --tier $TIER 2>/dev/null | grep -E "^(OK|VIOLATION|KNOWN-FINDING|MACHINERY)" | cut -c1-220)
+  out=$("$(dirname "$0")/../check" $id --tier $TIER 2>/dev/null | grep -E "^(OK|VIOLATION|KNOWN-FINDING|MACHINERY)" | cut -c1-220)
   rc=$?
   e=$(date +%s)
   echo "== $id wall=$((e-s))s"; echo "$out"
